@@ -50,6 +50,15 @@ namespace plan
       int id = static_cast<int>(m.classes.size());
       c.name = "S" + std::to_string(id);
       c.is_sv = true;
+      if (op.arg(2) & 1)
+      { // extends an earlier state-variable class (and through it StateVariable) instead of StateVariable directly
+        std::vector<int> sup;
+        for (size_t i = 0; i < m.classes.size(); ++i)
+          if (m.classes[i].is_sv)
+            sup.push_back(static_cast<int>(i));
+        if (!sup.empty())
+          c.super = sup[modn(op.arg(2) >> 1, sup.size())];
+      }
       long np = modn(op.arg(0), 2) + 1;
       for (long i = 0; i < np; ++i)
       {
@@ -348,6 +357,15 @@ namespace plan
       m.stmts.push_back(s);
       ++order;
     }
+    else if (n == "origin")
+    { // origin >= k: the origin is a variable like any other, atoms must not start before it
+      auto b = std::make_shared<B>();
+      b->k = B::REL;
+      b->rel = GEQ;
+      b->l.t.push_back({mpq_class(1), {"origin"}});
+      b->r.k = mpq_class(modn(op.arg(0), 5) + 1);
+      assert_stmt(b);
+    }
     else if (n == "horizon")
     { // horizon <= k keeps timelines tight enough for conflicts
       auto b = std::make_shared<B>();
@@ -407,7 +425,7 @@ namespace plan
       auto &c = m.classes[ci];
       if (c.is_sv)
       {
-        d += "class " + c.name + " : StateVariable {\n";
+        d += "class " + c.name + " : " + (c.super >= 0 ? m.classes[c.super].name : std::string("StateVariable")) + " {\n";
         for (int pi : c.preds)
           d += pred_text(m.preds[pi], "  ");
         d += "}\n";
